@@ -226,3 +226,106 @@ func ruleBuildTimeState() check.Rule {
 func isOperatorLike(m *model.Model, info *types.Info, fd *ast.FuncDecl) bool {
 	return fd.Name.IsExported() && fd.Recv == nil
 }
+
+// HEAD-TAIL-DISJOINT: a variadic list split into a head and a tail is split without overlap.
+func ruleHeadTailDisjoint() check.Rule {
+	return check.Rule{
+		Name:        "HEAD-TAIL-DISJOINT",
+		NeedControl: true,
+		Doc:         "when one call expression hands a slice parameter on both element-wise (`xs[i]`, constant i) and spread (`xs[k:]...`, constant k, 0 when absent) — the curried `OpWith(xs[1:]...)(xs[0])` delegation of the variadic creation operators — the two parts are disjoint (i < k): otherwise the element is handed on twice, i.e. an observable of the list is subscribed twice per subscription of the result (its side effects run twice, a hot first source is raced against itself)",
+		Run: func(c *check.Ctx) {
+			m := c.M
+			n := 0
+			for _, p := range m.Pkgs {
+				armed := c.ArmedPkg(p.PkgPath)
+				info := p.TypesInfo
+				for _, f := range p.Syntax {
+					for _, d := range f.Decls {
+						fd, ok := d.(*ast.FuncDecl)
+						if !ok || fd.Body == nil {
+							continue
+						}
+						ast.Inspect(fd.Body, func(x ast.Node) bool {
+							outer, ok := x.(*ast.CallExpr)
+							if !ok {
+								return true
+							}
+							// only outermost call expressions: a curried call f(a...)(b) is one expression
+							if par, ok := m.Parent(p, outer).(*ast.CallExpr); ok && ast.Unparen(par.Fun) == ast.Expr(outer) {
+								return true
+							}
+							type part struct {
+								obj types.Object
+								k   int64
+								pos token.Pos
+							}
+							var spreads, elems []part
+							var collect func(call *ast.CallExpr)
+							collect = func(call *ast.CallExpr) {
+								if inner, ok := ast.Unparen(call.Fun).(*ast.CallExpr); ok {
+									collect(inner)
+								}
+								for i, a := range call.Args {
+									a = ast.Unparen(a)
+									if call.Ellipsis != token.NoPos && i == len(call.Args)-1 {
+										switch y := a.(type) {
+										case *ast.Ident:
+											spreads = append(spreads, part{objOf(info, y), 0, y.Pos()})
+										case *ast.SliceExpr:
+											if id, ok := ast.Unparen(y.X).(*ast.Ident); ok && y.High == nil {
+												k := int64(0)
+												if y.Low != nil {
+													v, isConst := constVal(info, y.Low)
+													if !isConst {
+														continue
+													}
+													k = v
+												}
+												spreads = append(spreads, part{objOf(info, id), k, y.Pos()})
+											}
+										}
+										continue
+									}
+									if ix, ok := a.(*ast.IndexExpr); ok {
+										if id, ok := ast.Unparen(ix.X).(*ast.Ident); ok {
+											if v, isConst := constVal(info, ix.Index); isConst {
+												if _, isSlice := info.TypeOf(ix.X).Underlying().(*types.Slice); isSlice {
+													elems = append(elems, part{objOf(info, id), v, ix.Pos()})
+												}
+											}
+										}
+									}
+								}
+							}
+							collect(outer)
+							for _, e := range elems {
+								for _, s := range spreads {
+									if e.obj == nil || e.obj != s.obj {
+										continue
+									}
+									n++
+									key := fmt.Sprintf("%s.%s/head-tail-%s", model.ShortPkg(p.PkgPath), model.DeclName(fd), e.obj.Name())
+									if e.k < s.k {
+										if armed {
+											c.OK(key, e.pos, fmt.Sprintf("%s[%d] and %s[%d:]... do not overlap", e.obj.Name(), e.k, e.obj.Name(), s.k))
+										}
+									} else {
+										c.Report(armed, key, e.pos, "%s[%d] is handed on separately and again inside %s[%d:]...: that element is used twice (an observable of the list is subscribed twice per subscription)", e.obj.Name(), e.k, e.obj.Name(), s.k)
+									}
+								}
+							}
+							return true
+						})
+					}
+				}
+			}
+			c.Inc("head_tail_splits", n)
+		},
+	}
+}
+
+const controlsHeadTail = `
+func verifControlHeadTail[T any](sources ...Observable[T]) Observable[T] {
+	return MergeWith(sources...)(sources[0])
+}
+`
